@@ -13,7 +13,7 @@
 class run_proxy : public colvarproxy_stub { public: run_proxy() : colvarproxy_stub() { b_simulation_running = true; } };
 int main(int argc, char **argv) {
   if (argc < 3) return 2;
-  char dir[] = "/var/tmp/cvalbXXXXXX"; if (!mkdtemp(dir)) return 2; if (chdir(dir)) return 2;
+  char dir[] = "./cvalbXXXXXX"; if (!mkdtemp(dir)) return 2; if (chdir(dir)) return 2;
   run_proxy *proxy = new run_proxy(); proxy->set_unit_system("real", false); proxy->set_output_prefix("alb"); proxy->colvars->setup_input(); proxy->colvars->setup_output();
   for (int ai = 0; ai < 2; ai++) proxy->init_atom(ai + 1);
   if (proxy->colvars->read_config_string("colvarsTrajFrequency 1\ncolvarsRestartFrequency 0\ncolvar {\n  name d\n  distance {\n    group1 { atomNumbers 1 }\n    group2 { atomNumbers 2 }\n  }\n}\n"
